@@ -35,6 +35,9 @@ def check_proof(cell: "Cell", hash_: bytes) -> None:
 
 # https://github.com/ton-blockchain/ton/blob/master/crypto/block/check-proof.cpp
 def check_block_header_proof(root_cell: "Cell", block_hash: bytes, store_state_hash=False):
+    if root_cell.level_mask.mask >> 1:
+        # root_cell is what the Merkle proof cell wraps: a pruned branch in it that claims a level above 1 is committed by nothing
+        raise ProofError('Block header proof error: pruned branch of a level the Merkle proof does not account for')
     root_hash = root_cell.get_hash(0)
     if root_hash != block_hash:
         raise ProofError('Block header proof error: hashes unmatch')
